@@ -328,6 +328,63 @@ fn exhaustive_body(case: &Exh, ctx: &mut CaseCtx) -> PropResult {
 }
 
 // ---------------------------------------------------------------------------
+// sinks: short writes must not change the blob, a failing sink must surface as Err
+
+#[derive(Clone, Debug, Serialize, Deserialize)]
+pub struct SinkCase {
+    pub attrs: AttrCase,
+    /// bytes accepted per write() call
+    pub max_write: u8,
+    /// fail after this many bytes (selector over the blob length)
+    pub fail_at: u16,
+}
+
+struct Dribble {
+    got: Vec<u8>,
+    max: usize,
+    budget: Option<usize>,
+}
+
+impl std::io::Write for Dribble {
+    fn write(&mut self, buf: &[u8]) -> std::io::Result<usize> {
+        if buf.is_empty() {
+            return Ok(0);
+        }
+        if self.budget == Some(0) {
+            return Err(std::io::Error::new(std::io::ErrorKind::Other, "injected sink failure"));
+        }
+        let mut n = buf.len().min(self.max.max(1));
+        if let Some(b) = self.budget.as_mut() {
+            n = n.min(*b);
+            *b -= n;
+        }
+        self.got.extend_from_slice(&buf[..n]);
+        Ok(n)
+    }
+    fn flush(&mut self) -> std::io::Result<()> {
+        Ok(())
+    }
+}
+
+fn sink_body(c: &SinkCase, ctx: &mut CaseCtx) -> PropResult {
+    let attrs = build_attrs(&c.attrs.entries);
+    let oneshot = crate_encode(&c.attrs.entries)?;
+    ctx.nontrivial_if(oneshot.len() > c.max_write as usize && !oneshot.is_empty());
+    let mut short = Dribble { got: Vec::new(), max: c.max_write as usize, budget: None };
+    let r = no_panic("Attributes::to_writer (short writes)", || attrs.to_writer(&mut short))?;
+    ensure!(r.is_ok(), "attr:sink:short-writes-error", "a sink that takes {} byte(s) per call makes to_writer fail: {:?}", c.max_write.max(1), r.err().map(|e| e.to_string()));
+    ensure!(short.got == oneshot, "attr:sink:short-writes-change-output", "through a sink taking {} byte(s) per call {} of {} bytes arrive (or other bytes)", c.max_write.max(1), short.got.len(), oneshot.len());
+    if !oneshot.is_empty() {
+        let cut = (c.fail_at as usize * oneshot.len()) >> 16;
+        let mut failing = Dribble { got: Vec::new(), max: c.max_write as usize, budget: Some(cut) };
+        let r = no_panic("Attributes::to_writer (failing sink)", || attrs.to_writer(&mut failing))?;
+        ensure!(r.is_err(), "attr:sink:failure-swallowed", "the sink failed after {cut} of {} bytes and to_writer returned Ok", oneshot.len());
+        ctx.label("sink_failure_injected");
+    }
+    Ok(())
+}
+
+// ---------------------------------------------------------------------------
 // the map API as a history: the blob always describes the map as it is now
 
 #[derive(Clone, Debug, Serialize, Deserialize)]
@@ -346,6 +403,9 @@ pub enum MapOp {
     Recollect,
     /// decode(encode(map)) replaces the map
     Reload,
+    /// an encode that fails (a value type the format has no encoding for, into a sink that has
+    /// already taken a few bytes); the map itself is not changed
+    FailedEncode(u8),
 }
 
 #[derive(Clone, Debug, Serialize, Deserialize)]
@@ -397,6 +457,15 @@ fn map_history_body(h: &MapHistory, ctx: &mut CaseCtx) -> PropResult {
                 ensure!(n == model.len(), "attr:map:drain-count", "step {step}: drain yielded {n} of {} entries", model.len());
                 model.clear();
                 edits_after_encode |= encodes > 0;
+            }
+            MapOp::FailedEncode(k) => {
+                let mut bad = real.clone();
+                bad.insert(format!("zz_unencodable{k}"), Variant::Int64(7));
+                let mut sink = Dribble { got: Vec::new(), max: 3, budget: Some(*k as usize % 40) };
+                let _ = crate::engine::catch(|| bad.to_writer(&mut sink).is_ok());
+                let mut sink2 = Vec::new();
+                let _ = crate::engine::catch(|| bad.to_writer(&mut sink2).is_ok());
+                ctx.label("failed_encode_between");
             }
             MapOp::CloneSelf => real = real.clone(),
             MapOp::Recollect => real = real.into_iter().collect(),
@@ -458,6 +527,7 @@ fn map_history_strategy() -> BoxedStrategy<MapHistory> {
         1 => Just(MapOp::CloneSelf),
         1 => Just(MapOp::Recollect),
         1 => Just(MapOp::Reload),
+        2 => any::<u8>().prop_map(MapOp::FailedEncode),
     ];
     proptest::collection::vec(op, 1..12).prop_map(|ops| MapHistory { ops }).boxed()
 }
@@ -482,13 +552,20 @@ pub fn long_value(kind: &str, n: usize) -> GVal {
 }
 
 fn long_body(c: &LongCase, ctx: &mut CaseCtx) -> PropResult {
-    ctx.nontrivial_if(c.n > 65536);
+    ctx.nontrivial_if(c.n > 65536 || c.kind.starts_with("Name"));
     ctx.label_if(c.followed, "long_value_followed_by_another_entry");
-    let mut entries = vec![("a_long".to_string(), long_value(&c.kind, c.n))];
+    let mut entries = if c.kind == "Name" || c.kind == "NameMultibyte" {
+        // a long attribute *name* (ASCII, or 3-byte characters): names have no documented limit
+        let name: String = if c.kind == "Name" { (0..c.n).map(|i| (b'a' + (i % 26) as u8) as char).collect() } else { "\u{20AC}".repeat(c.n / 3) };
+        vec![(name, GVal::Float64(1.25f64.to_bits()))]
+    } else {
+        vec![("a_long".to_string(), long_value(&c.kind, c.n))]
+    };
     if c.followed {
         entries.push(("b_after".to_string(), GVal::Bool(true)));
         entries.push(("c_after".to_string(), GVal::Float64(2.5f64.to_bits())));
     }
+    entries.sort_by(|a, b| a.0.cmp(&b.0));
     body(&AttrCase { entries, shuffle: vec![] }, ctx)
 }
 
@@ -519,6 +596,13 @@ pub fn run(ctx: &Ctx) -> PropertyReport {
         let cases = ctx.cfg.cases(20_000, 300_000);
         rep.push(ctx.run_prop("file-blobs", cases, || attr_case(8), file_blob_body));
     }
+    if sub.runs("sinks") {
+        let cases = ctx.cfg.cases(40_000, 800_000);
+        let strat = || (attr_case(8), prop_oneof![2 => 1u8..4, 1 => 4u8..=255], any::<u16>()).prop_map(|(attrs, max_write, fail_at)| SinkCase { attrs, max_write, fail_at });
+        let mut r = ctx.run_prop("sinks", cases, strat, sink_body);
+        r.floor("sink_failure_injected", cases / 4);
+        rep.push(r);
+    }
     if sub.runs("map-history") {
         let cases = ctx.cfg.cases(60_000, 1_500_000);
         let mut r = ctx.run_prop("map-history", cases, map_history_strategy, map_history_body);
@@ -532,6 +616,13 @@ pub fn run(ctx: &Ctx) -> PropertyReport {
             for n in LONG_LENGTHS {
                 for followed in [false, true] {
                     cases.push(LongCase { kind: kind.to_string(), n: *n, followed });
+                }
+            }
+        }
+        for kind in ["Name", "NameMultibyte"] {
+            for n in [63usize, 64, 65, 99, 100, 101, 102, 120, 127, 128, 129, 255, 256, 257, 300, 1000, 65_537] {
+                for followed in [false, true] {
+                    cases.push(LongCase { kind: kind.to_string(), n, followed });
                 }
             }
         }
